@@ -14,6 +14,10 @@ Fixpoint shaped (ks : list kind) (o : onode) : Prop :=
   | k :: r, OSome (Node k' _ nx) => k = k' /\ shaped r nx
   | _, _ => False
   end.
+Fixpoint allb (P : basic -> Prop) (o : onode) : Prop :=
+  match o with ONone => True | OSome (Node _ b nx) => P b /\ allb P nx end.
+Lemma allb_link P l : Forall (fun kb => P (snd kb)) l -> allb P (link l).
+Proof. induction 1 as [|y l Hy Hl IH]; [exact I|]. cbn [link allb]. split; assumption. Qed.
 Lemma shaped_link l : shaped (map fst l) (link l).
 Proof. induction l as [|y l IH]; [exact I|]. cbn [map link shaped]. split; [reflexivity|exact IH]. Qed.
 Lemma shaped_seg x ks o : shaped (rstep_kinds x ++ ks) o -> exists b1 b2 nx, o = OSome (seg x b1 b2 nx) /\ shaped ks nx.
@@ -47,6 +51,22 @@ Section FiltAddr.
   Hypothesis afun_small : forall f l w, Forall small l -> afun f l = Some w -> small w.
   Notation sp := (sp ffun afun regex_match).
   Notation holds := (holds ffun afun regex_match).
+
+  Lemma sp_shaped_P (P : basic -> Prop) : forall r x b1 b2 nx, shaped (kinds_of r) nx -> forallb rstep_ok (x :: r) = true -> P b2 -> allb P nx ->
+    exists B, P B /\ forall root q v, small v ->
+      sp (seg x b1 b2 nx) root (Some q, v) = map (fun lv => (B, true, (Some (fst lv), snd lv))) (nav_all (x :: r) (q, v)).
+  Proof.
+    induction r as [|y r IH]; intros x b1 b2 nx Hn Hs Hb Ha; cbn [forallb] in Hs; apply andb_true_iff in Hs; destruct Hs as [H1 H2].
+    - destruct nx; [|contradiction]. exists b2. split; [exact Hb|]. intros root q v Hsm. rewrite (sp_seg ffun afun regex_match) by assumption.
+      cbn [nav_all]. rewrite <- flat_map_single, flat_map_flat_map. apply flat_map_ext'. intros lv. reflexivity.
+    - unfold kinds_of in Hn. cbn [flat_map] in Hn. destruct (shaped_seg y _ nx Hn) as (c1 & c2 & nx' & E & Hn'). subst nx.
+      assert (Hc2 : P c2 /\ allb P nx').
+      { destruct y as [s|s]; cbn [ChainAddr.seg allb] in Ha; [exact Ha|]. destruct Ha as [_ Ha]. exact Ha. }
+      destruct (IH y c1 c2 nx' Hn' H2 (proj1 Hc2) (proj2 Hc2)) as (B & HB & Hsp). exists B. split; [exact HB|]. intros root q v Hsm.
+      rewrite (sp_seg ffun afun regex_match) by assumption.
+      cbn [nav_all]. rewrite map_flat_map'. apply flat_map_ext_in'. intros [l z] Hin. unfold ChainAddr.fwd. cbn [fst snd]. apply Hsp.
+      pose proof (nav1r_small x q v Hsm) as Hnv. rewrite Forall_forall in Hnv. exact (Hnv (l, z) Hin).
+  Qed.
 
   Lemma sp_shaped : forall r x b1 b2 nx, shaped (kinds_of r) nx -> forallb rstep_ok (x :: r) = true ->
     exists B, forall root q v, small v ->
@@ -188,5 +208,87 @@ Section FiltAddr.
                            (sorted_keys m) (sorted_key_present m)).
       rewrite flat_map_flat_map. apply flat_map_ext'. intros k. destruct (lookup m k) as [x|]; [|reflexivity].
       destruct (reaches isteps x); [cbn [flat_map]; rewrite app_nil_r|]; reflexivity.
+  Qed.
+  (* ---------- the operand's value at a member, and filters in general ---------- *)
+  Notation accf := (fun b : basic => accessor b = false).
+  Lemma allb_seg P x b1 b2 nx : allb P (OSome (seg x b1 b2 nx)) -> P b2 /\ allb P nx.
+  Proof. destruct x as [s|s]; cbn [ChainAddr.seg allb]; [intros H; exact H|intros [_ H]; exact H]. Qed.
+
+  Lemma operand_tree_acc x r : exists b1 b2 nx,
+    clear_acc (delete_root (inner_root cfg (x :: r))) = seg x b1 b2 nx /\ shaped (kinds_of r) nx /\ accessor b2 = false /\ allb accf nx.
+  Proof.
+    unfold inner_root. pose proof (pres_plain cfg (x :: r)) as Hp.
+    assert (Hk : map fst (cl (pres cfg (x :: r))) = kinds_of (x :: r)) by apply kinds_cl.
+    destruct (pres cfg (x :: r)) as [|y l] eqn:Ep.
+    { exfalso. unfold pres in Ep. cbn [flat_map] in Ep. destruct x as [s|s]; discriminate Ep. }
+    inversion Hp as [|? ? Hy Hl]; subst.
+    assert (Ev : exists by0, clear_acc (delete_root (update_vg (Node KCurrent (cur_basic cfg) (link (y :: l))))) = Node (fst y) by0 (link (cl l)) /\
+                 accessor by0 = false).
+    { unfold update_vg. cbn [chain_vg]. destruct (vgroup (cur_basic cfg) || _).
+      - cbn [set_node_vg link delete_root vgroup set_vgroup]. eexists. rewrite (clear_link (fst y) _ l (proj1 Hy) Hl). split; reflexivity.
+      - cbn [link delete_root cur_basic mk_basic vgroup]. eexists. rewrite (clear_link (fst y) _ l (proj1 Hy) Hl). split; reflexivity. }
+    destruct Ev as (by0 & Ev & Hacc). rewrite Ev.
+    assert (Hsh : shaped (kinds_of (x :: r)) (OSome (Node (fst y) by0 (link (cl l))))).
+    { rewrite <- Hk. cbn [cl map fst shaped]. split; [reflexivity|]. apply (shaped_link (cl l)). }
+    assert (Hall : allb accf (OSome (Node (fst y) by0 (link (cl l))))).
+    { cbn [allb]. split; [exact Hacc|]. apply allb_link. unfold cl. apply Forall_forall. intros kb Hin. apply in_map_iff in Hin. destruct Hin as [kb0 [E _]]. subst kb. reflexivity. }
+    unfold kinds_of in Hsh. cbn [flat_map] in Hsh. destruct (shaped_seg x _ _ Hsh) as (b1 & b2 & nx & E & Hn). inversion E as [E'].
+    rewrite E' in Hall. destruct (allb_seg accf x b1 b2 nx Hall) as [Hb2 Hnx].
+    exists b1, b2, nx. repeat split; assumption.
+  Qed.
+
+  (* the first value the operand path reaches from a member (the path of a comparison operand is single-valued) *)
+  Definition reach1 (isteps : list rstep) (v : value) : entry :=
+    match nav_all isteps ([], v) with [] => None | lv :: _ => Some (snd lv) end.
+
+  Lemma operand_entry isteps root v : forallb rstep_ok isteps = true -> small v ->
+    (match sp (clear_acc (delete_root (inner_root cfg isteps))) root (None, v) with x :: _ => Some (res_value (Spec.wrap x)) | [] => None end) = reach1 isteps v.
+  Proof.
+    intros Hs Hsm. destruct isteps as [|x r].
+    - reflexivity.
+    - destruct (operand_tree_acc x r) as (b1 & b2 & nx & E & Hn & Hb2 & Hnx). rewrite E.
+      assert (Hrf : root_free (seg x b1 b2 nx) = true).
+      { pose proof (root_free_shaped r nx Hn) as H. destruct x as [s|s]; cbn [ChainAddr.seg root_free]; rewrite H;
+          destruct s as [q k|k|ds|[|]|sa sb sc|u us]; reflexivity. }
+      pose proof (proj1 (root_free_sim ffun afun regex_match) (seg x b1 b2 nx) Hrf root root (None, v) (Some [], v) eq_refl) as Hsim.
+      destruct (sp_shaped_P accf r x b1 b2 nx Hn Hs Hb2 Hnx) as (B & HB & Hsp). pose proof (Hsp root [] v Hsm) as Hq.
+      assert (Hsim' : Forall2 sim (sp (seg x b1 b2 nx) root (None, v))
+                              (map (fun lv : list pstep * value => (B, true, (Some (fst lv), snd lv))) (nav_all (x :: r) ([], v))))
+        by (exact (eq_ind _ (fun l0 => Forall2 sim (sp (seg x b1 b2 nx) root (None, v)) l0) Hsim _ Hq)).
+      unfold reach1. destruct (nav_all (x :: r) ([], v)) as [|a l]; cbn [map] in Hsim'; inversion Hsim' as [|r0 r1 l0 l1 Hs0 _]; subst; [reflexivity|].
+      rewrite (wrap_sim _ _ Hs0). cbn [Spec.wrap]. rewrite HB. reflexivity.
+  Qed.
+
+  (* a filter whose verdict for every member is a function of that member *)
+  Definition navp (h : value -> bool) (lv : list pstep * value) : list (list pstep * value) :=
+    match snd lv with
+    | VArr xs => flat_map (fun iv : Z * value => if h (snd iv) then [(fst lv ++ [PIdx (fst iv)], snd iv)] else []) (index_list xs 0)
+    | VObj m => flat_map (fun k => match lookup m k with
+                                   | Some x => if h x then [(fst lv ++ [PKey k], x)] else []
+                                   | None => []
+                                   end) (sorted_keys m)
+    | _ => []
+    end.
+
+  Lemma sp_kfilter q h b next root p v : (forall vals, Forall small vals -> holds q root vals = map h vals) -> small v ->
+    sp (Node (KFilter q) b next) root (Some p, v) = flat_map (ChainAddr.fwd ffun afun regex_match b next root) (navp h (p, v)).
+  Proof.
+    intros Hh Hsm. unfold navp. cbn [snd fst]. destruct v as [|bb|x|s x|s|xs|m|t i s]; try reflexivity.
+    - change (sp (Node (KFilter q) b next) root (Some p, VArr xs)) with
+        (flat_map (fun ib : (Z * value) * bool => if snd ib then ChainAddr.fwd ffun afun regex_match b next root (p ++ [PIdx (fst (fst ib))], snd (fst ib)) else [])
+                  (combine (index_list xs 0) (holds q root xs))).
+      rewrite (Hh xs (small_arr_all xs Hsm)), combine_index, flat_map_map', flat_map_flat_map.
+      apply flat_map_ext'. intros [i x]. cbn [fst snd]. destruct (h x); [cbn [flat_map]; rewrite app_nil_r|]; reflexivity.
+    - change (sp (Node (KFilter q) b next) root (Some p, VObj m)) with
+        (flat_map (fun kb : string * bool => if snd kb then match lookup m (fst kb) with
+                                                             | Some x => ChainAddr.fwd ffun afun regex_match b next root (p ++ [PKey (fst kb)], x)
+                                                             | None => []
+                                                             end else [])
+                  (combine (sorted_keys m) (holds q root (flat_map (fun k => match lookup m k with Some v => [v] | None => [] end) (sorted_keys m))))).
+      rewrite (Hh _ (small_obj_vals m (sorted_keys m) Hsm)).
+      rewrite (obj_combine m h (fun k => match lookup m k with Some x => ChainAddr.fwd ffun afun regex_match b next root (p ++ [PKey k], x) | None => [] end)
+                           (sorted_keys m) (sorted_key_present m)).
+      rewrite flat_map_flat_map. apply flat_map_ext'. intros k. destruct (lookup m k) as [x|]; [|reflexivity].
+      destruct (h x); [cbn [flat_map]; rewrite app_nil_r|]; reflexivity.
   Qed.
 End FiltAddr.
